@@ -22,8 +22,10 @@ def addr_line(variant, prio0, ops, rng):
             code = rng.choice((3, 4))
         if n == "build":
             code = rng.choice((8, 9, 10))
+        if rng.random() < 0.08:          # reserve(n), n below / at / above the current size and the key range: no abstract effect
+            out.append("12 %d 0 0 " % rng.choice((0, 1, 3, len(prio0), 2 * len(prio0) + 5)))
         out.append("%d %d %d %d %s" % (code, o["k"], o["p"], len(lst), " ".join(map(str, lst))))
-    return "%d %d %s %d %s" % (variant, len(prio0), " ".join(map(str, prio0)), len(ops), " ".join(out))
+    return "%d %d %s %d %s" % (variant, len(prio0), " ".join(map(str, prio0)), len(out), " ".join(out))
 
 
 def random_addr(rng, n, nkeys, nprio):
@@ -135,8 +137,10 @@ def dary_line(variant, ops, rng):
         if n == "build":
             code = rng.choice((5, 6, 7))
             lst = ["%d %d" % (k, o["id"] + i + 1) for i, k in enumerate(o.get("list", []))]
+        if rng.random() < 0.08:
+            out.append("10 %d 0 0 " % rng.choice((0, 1, 3, 8, 40)))
         out.append("%d %d %d %d %s" % (code, o["k"], o["id"], len(lst), " ".join(lst)))
-    return "%d %d %s" % (variant, len(ops), " ".join(out))
+    return "%d %d %s" % (variant, len(out), " ".join(out))
 
 
 def random_bag(rng, n, nkeys, mono):
